@@ -22,6 +22,8 @@ from sim.worlda import WorldA
 PROP = "C10"
 LEVEL = "fault_enumeration"
 SCENARIOS = ["connect", "lossy-connect", "ping-missed", "rf-fault", "needs-attention", "steady-commands", "spa-not-found"]
+# the library's own reset (a ping answered in an error state), with the client's handler suspending: no injection index needed
+AUTO_SCENARIOS = ["auto-reset-ping", "auto-reset-rf", "auto-reset-attention"]
 KINDS = ["reset", "setinfo", "exit"]
 GRACE = 1.0
 LATE_WINDOW = 300.0
@@ -34,7 +36,8 @@ def scenario_case(sseed: int, scen: str, k: Optional[int], kind: str) -> Dict[st
     loop_cfg = {"cost_small_p": 0.1, "cost_small_max": 0.002}
     cfg = {"scenario": scen, "net": {"lat_min": 0.001, "lat_max": 0.004}, "loop": loop_cfg, "tables": tables,
            "snapshot": rng.choice(["default.snapshot", "inYT-Pump1Hi-2020-12-13 11_19_35.snapshot", "inYJ-All off-2020-12-18 11_24_09.snapshot"]),
-           "suspend_p": rng.choice([0.0, 0.0, 0.2]), "suspend_max": 0.4, "lossp": rng.choice([0.1, 0.25]),
+           "suspend_p": rng.choice([0.0, 0.0, 0.2]) if not scen.startswith("auto-") else rng.choice([0.0, 0.5, 1.0]),
+           "suspend_max": 0.4, "lossp": rng.choice([0.1, 0.25]),
            "inject": {"k": k, "kind": kind}}
     return {"property": PROP, "world": "A", "seed": sseed, "cfg": cfg, "plan": []}
 
@@ -123,6 +126,16 @@ async def scenario(world: WorldA) -> None:
     state: Dict[str, Any] = {"injected": None, "reset_done": None, "exit_injected": False}
     world.net.healed = True
 
+    def on_auto(d: Dict[str, Any]) -> None:
+        if scen.startswith("auto-reset") and state.get("auto") is None and d["event"].name == "RUNNING_SPA_DISCONNECTED" \
+                and not d["task"].startswith("HARNESS"):
+            a: Dict[str, Any] = {"t": world.now(), "state": d["state"].name, "transports": list(world.loop.transports), "gen": watcher.gen,
+                                 "tasks": {task: task.get_name() for task in library_tasks() if task.get_name().split(":")[0] in ("SPA", "FACADE", "LOC")},
+                                 "by": d["task"], "d": d}
+            state["auto"] = a
+            res.probe("library_reset_observed")
+    man.on_delivery.append(on_auto)
+
     async def wait_state(pred, cap: float) -> bool:
         t0 = world.now()
         while world.now() - t0 < cap:
@@ -182,6 +195,30 @@ async def scenario(world: WorldA) -> None:
             await asyncio.sleep(2.0)
         elif scen == "cycles":
             await cycles_body()
+        elif scen.startswith("auto-reset"):
+            errs = (GeckoSpaState.ERROR_PING_MISSED, GeckoSpaState.ERROR_RF_FAULT, GeckoSpaState.ERROR_NEEDS_ATTENTION)
+            if scen == "auto-reset-ping":
+                world.net.healed = False
+                world.net.blackouts.append((world.now(), 1e9, "both"))
+            elif scen == "auto-reset-rf":
+                model.do_rferr("true")
+            else:
+                model.silent_verbs.update({"GeckoWatercareProtocolHandler", "GeckoRemindersProtocolHandler", "GeckoStatusBlockProtocolHandler",
+                                           "GeckoGetChannelProtocolHandler"})
+                asyncio.create_task(man.facade.spa.async_get_watercare(), name="HARNESS:cmd-wc")
+            await wait_state(lambda: man.spa_state in errs, 250)
+            await asyncio.sleep(1.0)
+            # heal: the next answered ping makes the manager reset the connection itself
+            world.net.healed = True
+            world.net.blackouts.clear()
+            model.do_rferr("false")
+            model.silent_verbs.clear()
+            await wait_state(lambda: state.get("auto") is not None, 200)
+            await wait_state(lambda: man.spa_state not in errs, 30)
+            if state.get("auto") is not None:
+                if state["auto"]["d"].get("suspended"):
+                    res.probe("library_reset_with_suspended_handler")
+                await check_after_reset(world, sysm, man, watcher, state["auto"], {"reset_done": state["auto"]["t"]}, {"kind": "library-reset", "k": None}, model)
 
     async def _cmd(spa, i: int) -> None:
         try:
@@ -339,7 +376,7 @@ async def scenario(world: WorldA) -> None:
         if worst_tasks > 14:
             world.note(PROP, "tasks-grow-over-cycles", f"{worst_tasks} library tasks alive after {len(cycle_stats)} reconnect cycles: "
                           f"{[c['tasks'] for c in cycle_stats]}")
-    res.nontrivial = state["injected"] is not None or scen == "cycles"
+    res.nontrivial = state["injected"] is not None or scen == "cycles" or state.get("auto") is not None
     res.faultfree = inj["k"] is None
     res.shape = format(mix(0, repr((scen, inj["kind"], snap.get("state"), sorted(snap.get("tasks", {}).values())))), "x")
     res.sample = {"scenario": scen, "inject": inj, "state_at_injection": snap.get("state"),
@@ -370,6 +407,8 @@ async def check_after_reset(world: WorldA, sysm: System, man, watcher: Watcher, 
     res = world.result
     ctx = f"scenario={world.cfg['scenario']} inject={inj} state_at_injection={snap['state']}"
     t_ret = state["reset_done"] or world.now()
+    if inj["kind"] == "library-reset":
+        t_ret = world.now()
     if state.get("reset_raised"):
         res.probe("reset_raised")
     # "promptly": ten polling intervals after the reset returns (+ injected stall)
@@ -447,21 +486,25 @@ ASSUMPTIONS = [
     "a callback boundary is an await point of some task; sweeping the callback index therefore sweeps the reachable await points of the scenario",
     "observers are the harness's own recording callbacks registered through the public watch() API",
 ]
-PROBES = ["inject_in_LOCATING_SPAS", "inject_in_CONNECTING", "inject_in_CONNECTED", "inject_in_ERROR_PING_MISSED", "inject_in_ERROR_RF_FAULT",
+PROBES = ["library_reset_observed", "library_reset_with_suspended_handler", "inject_in_LOCATING_SPAS", "inject_in_CONNECTING", "inject_in_CONNECTED", "inject_in_ERROR_PING_MISSED", "inject_in_ERROR_RF_FAULT",
           "inject_in_ERROR_NEEDS_ATTENTION", "inject_in_ERROR_SPA_NOT_FOUND", "inject_in_LOCATED_SPAS", "inject_in_SPA_READY"]
 EXHAUSTIVE = {"quick": False, "thorough": False}
-N_QUICK = 2520
+N_QUICK = 1680
 
 
 def jobs(tier: str, base_seed: int):
     if tier == "quick":
         yield {"kind": "cycles", "mandatory": True}
         yield {"kind": "baselines", "mandatory": True}
+        for i in range(0, 60, 4):
+            yield {"kind": "auto", "first": i, "count": 4, "mandatory": True}
         for i in range(0, N_QUICK, 21):
             yield {"kind": "seeded", "first": i, "count": 21, "mandatory": True}
     else:
         yield {"kind": "cycles", "mandatory": True}
         yield {"kind": "baselines", "mandatory": True}
+        for i in range(0, 600, 4):
+            yield {"kind": "auto", "first": i, "count": 4, "mandatory": True}
         for sseed in (1000, 1001):
             for scen in SCENARIOS:
                 n = baseline_n(sseed, scen)
@@ -495,6 +538,12 @@ def job_cases(job, tier: str, base_seed: int):
             for scen in SCENARIOS:
                 c = scenario_case(sseed, scen, None, "none")
                 c["subspace"] = "baseline"
+                yield c
+    elif job["kind"] == "auto":
+        for sseed in range(job["first"], job["first"] + job["count"]):
+            for scen in AUTO_SCENARIOS:
+                c = scenario_case(2000 + sseed, scen, None, "none")
+                c["subspace"] = "library-reset:" + scen
                 yield c
     elif job["kind"] == "sweep":
         for k in job["ks"]:
